@@ -176,7 +176,7 @@ EXTENSIONS = {
     "C04": "Also after a real connect() and on a re-used object (all 20 variants); every search also runs one level shallower with trace logging on.",
     "C05": "Sequences and first bytes also with fire_cont_frame / skip_utf8_validation, after a real connect() with all four option combinations, on re-used objects (closed mid-message / mid-frame) and after the application's own send_close(); close bodies under all eight configurations; every task also with trace logging on.",
     "C06": "Plus all histories of <= 3 (thorough 4) of 13 whole / fragmented, well- / ill-formed messages on ONE connection (a rejected message may not influence later ones); every task also with trace logging on.",
-    "C07": "The incremental search also runs after a real connect(), on a re-used object and after the application's own send_close(); all ping lengths and shallower searches also with trace logging on.",
+    "C07": "The incremental search also runs after a real connect(), on a re-used object and after the application's own send_close(); all ping lengths and shallower searches also with trace logging on. Run-length axis: one run of 1030 (thorough 66000) control frames - pings, pongs, alternating, pings of cycling lengths - on an otherwise idle connection, inside a fragmented message and between two messages, delivered one per receive call and as one burst; each ping is judged by itself, so the run covers every shorter run as a prefix.",
     "C08": "Also on a connection built with enable_multithread=False; every task also with trace logging on.",
     "C09": "Every task also with trace logging on.",
     "C10": "Every task also with trace logging on.",
@@ -223,5 +223,16 @@ for _pid, _extra in {
     "C11": "Direct connections also through create_connection and WebSocketApp.run_forever(sslopt=...).",
     "C18": "Address lists also through WebSocketApp.run_forever(sockopt=...) with the process-wide default timeout.",
     "C19": "Every connect case also through create_connection and WebSocketApp.run_forever(http_proxy_*=...).",
+}.items():
+    _ext(_pid, _extra)
+
+# run-length, numeric-field and host-form alphabets; closing-handshake races; re-established connections (wave l)
+for _pid, _extra in {
+    "C09": "Status LINES as text: the status field of an otherwise valid upgrade in all 34 spellings of the shared numeric-field alphabet (exact / lenient / ambiguous / other: longer digit strings that start with 101, fractions, signs, Unicode digits ...) x 5 reason tails x 2 HTTP versions, plus decoy lines that carry 101 elsewhere; a field no reading of which gives 101 must be refused.",
+    "C12": "A sender under short writes against a thread that starts the closing handshake (by reading the server's Close frame, by send_close(), by close()), judged write call by write call: when a thread writes, no other thread may have an unfinished frame on the wire.",
+    "C16": "The measured connection may also be one re-established by reconnect inside the same run_forever (first connection lost), with two payloads.",
+    "C17": "Every numeric text field of a response (status 101/301/404, Content-Length, the port of a Location; 200/407 of a proxy reply) in all spellings of the shared numeric-field alphabet, including characters that are digits to str.isdigit() but not to int().",
+    "C18": "43 host forms (names with trailing dot / digits-only labels / underscore / 63-character label, IPv4, IPv6 with every :: position, full and upper-case forms, IPv4-mapped and embedded dotted tails) x scheme x userinfo x port x path x query, all through connect().",
+    "C19": "The proxy's reply status in all spellings of the numeric-field alphabet: only a reading of 200 opens the tunnel.",
 }.items():
     _ext(_pid, _extra)
